@@ -1830,6 +1830,96 @@ class TreeSim(WorldBase):
             t.done = True
         return {}
 
+    # ---- a plain sparse walk whose body changes the fiber ahead of the cursor
+    def start_walkmut(self, tid, a, targets):
+        """for c, p in f: ... while the loop is suspended the program assigns, by position, an element FURTHER ON in
+        the same fiber; the walk then hands out that element: the stored payload, with its current value. (Insertions
+        during a walk are not generated: the unchanged walk fixes its length when it starts and would not reach them.)"""
+        s = a["slot"]
+        self.need_unfrozen(s)
+        sl, f = self.fiber_at(s, a["prefix"])
+        if len(a["prefix"]) != sl.depth - 1 or any(not isinstance(c, int) for c in f.coords) or not f.coords:
+            raise Skip("leaf fiber with int coordinates")
+        S = self.level_shape(sl, sl.depth - 1)
+        if not isinstance(S, int):
+            raise Skip("int shape")
+        fmt = f.getOwner().getFormat() if f.getOwner() is not None else f.getRankAttrs().getFormat()
+        if fmt != "C":
+            raise Skip("compressed rank")
+        t = self.new_task(tid, "walkmut")
+        t.slots = {s}
+        t.zslot = s
+        t.info = {"pre": dec_point(a["prefix"]), "f": f, "got": [], "S": S}
+        try:
+            t.gen = iter(f) if a.get("var", "iter") == "iter" else iter(f.iterOccupancy())
+        except Exception as e:
+            t.done = True
+            return {"status": f"exc:{type(e).__name__}"}
+        targets.add(s)
+        return {"judged": True}
+
+    def step_walkmut(self, t, action, targets):
+        sl = self.slot(t.zslot)
+        info = t.info
+        f = info["f"]
+        targets.add(t.zslot)
+        judged = self.prop == "C03"
+        try:
+            c, p = next(t.gen)
+        except StopIteration:
+            t.done = True
+            return {"judged": True, "end": True}
+        except Exception as e:
+            t.done = True
+            return self.unexpected("C03", "walkmut", e, t.zslot)
+        t.yields += 1
+        point = info["pre"] + (c,)
+        stored = ob.find_payload(sl.root, point)
+        if judged:
+            if info["got"] and not (c > info["got"][-1]):
+                self.V("C03", "C03.walk-sees-the-fiber", "walkmut", f"the walk handed out {c} after {info['got']}")
+            if stored is None or stored is not p:
+                self.V("C03", "C03.handle-alias", "walkmut",
+                       f"the walk over {info['pre']} handed out, for coordinate {c}, an object that is not the payload the "
+                       f"fiber stores there (value handed out {getattr(p, 'value', p)!r}, stored "
+                       f"{getattr(stored, 'value', stored)!r}): an update through it is lost")
+            elif isinstance(p, Payload) and p.value != sl.model.get(point, sl.default):
+                self.V("C03", "C03.read-your-writes", "walkmut",
+                       f"the walk handed out {p.value!r} at {point}, the last value written there is "
+                       f"{sl.model.get(point, sl.default)!r}")
+        info["got"].append(c)
+        act = action.get("act", "none")
+        res = {"judged": True, "c": c, "act": act}
+        if t.yields > 40:
+            t.done = True
+            return res
+        idx = f.coords.index(c) if c in f.coords else None
+        try:
+            if act == "upd" and isinstance(p, Payload) and stored is p:
+                self._write(sl, point, p, "add", 1)
+            elif act == "setitem_ahead" and idx is not None and idx + 1 < len(f.coords):
+                j = idx + 1 + action.get("k", 0) % (len(f.coords) - idx - 1)
+                f[j] = action["v"]
+                sl.model[info["pre"] + (f.coords[j],)] = action["v"]
+                self.probe("walk_element_ahead_reassigned_by_position")
+        except Exception as e:
+            return self.unexpected("C03", "walkmut", e, t.zslot)
+        return res
+
+    def gen_walkmut(self, g):
+        s = self.pick_slot(g, nonfree=False)
+        if s is None:
+            return None
+        sl = self.slots[s]
+        if sl.depth < 1:
+            return None
+        pre = self.existing_prefix(g, sl, sl.depth - 1)
+        if pre is None:
+            return None
+        tid = self.next_tid
+        self.next_tid += 1
+        return ["start", tid, "walkmut", {"slot": s, "prefix": enc_point(pre), "var": g.choice(["iter", "occ"])}]
+
     # ================================================================== generation
     def generate(self, streams):
         g = streams["gen"]
@@ -2501,6 +2591,13 @@ class TreeSim(WorldBase):
                 if k < len(sh) and isinstance(sh[k], int) and sh[k] > 1:
                     return {"act": "elsewhere", "c2": g.randrange(sh[k]), "v": self.nextval()}
             return {"act": "leave"}
+        if t.kind == "walkmut":
+            r = g.random()
+            if r < 0.45:
+                return {"act": "setitem_ahead", "k": g.randrange(8), "v": self.nextval()}
+            if r < 0.8:
+                return {"act": "upd"}
+            return {"act": "none"}
         if t.kind == "coishaperef":
             r = g.random()
             if r < 0.35:
@@ -2573,7 +2670,7 @@ ALLMUT = {"ref": 6, "hw": 3, "posref": 2, "append": 2, "extend": 1, "setitem": 3
 BASE_WEIGHTS = {
     "C01": dict(ALLMUT, get=1, rotrav=0.5, vr=1.5, ro=0.5),
     "C02": dict(ALLMUT, get=2, getpos=0.5, rotrav=1.5, vr=2.5, ro=3),
-    "C03": {"r0": 2, "ref": 8, "hw": 5, "posref": 3, "get": 8, "getpos": 3, "append": 0.5, "setitem": 0.7, "clear": 0.3,
+    "C03": {"r0": 2, "ref": 8, "hw": 5, "posref": 3, "get": 8, "getpos": 3, "append": 0.5, "setitem": 0.7, "clear": 0.3, "walkmut": 1.2,
             "populate": 0.7, "descend": 2, "updp": 0.3, "fimul": 0.3, "filshift": 0.3, "new_op": 0.3},
     "C05": {"vr": 1.0, "populate": 8, "descend": 10, "ref": 3, "hw": 1, "get": 3, "setitem": 1, "clear": 0.3, "filshift": 0.5,
             "fimul": 0.5, "fiadd": 0.7, "rotrav": 0.5, "new_op": 0.7, "regrow": 0.6, "setdef": 0.5},
